@@ -3,16 +3,16 @@
 From SQ Require Import Model.Base Model.Varint Model.Record Model.Payload Model.Btree
      Model.Page Model.Cmp.
 
-Section Low.
-  Variable pg : Z -> res (list byte).   (* pager.page(n, pagesize) *)
-  Variable U : Z.                       (* header.PageSize *)
-  Variable npages : nat.                (* bound on the number of readable pages *)
+(* Database.openPage without the cache (the cache only memoises this pure
+   function of the page bytes): page n of a pager, parsed *)
+Definition openp (pg : Z -> res (list byte)) (U : Z) (n : Z) : res page :=
+  do b <- db_page pg n;
+  parse_page b (n =? 1) U.
 
-  (* Database.openPage without the cache (the cache is transparent for a
-     pure pager; see Proofs/Cache.v) *)
-  Definition openp (n : Z) : res page :=
-    do b <- db_page pg n;
-    parse_page b (n =? 1) U.
+Section Low.
+  Variable pg : Z -> res (list byte).   (* pager.page(n, pagesize): used for overflow pages *)
+  Variable op : Z -> res page.          (* Database.openPage; [openp pg U] in every run *)
+  Variable npages : nat.                (* bound on the number of readable pages *)
 
   Definition load (pl : cell_payload) : res record :=
     do c <- add_overflow pg npages pl;
@@ -23,10 +23,10 @@ Section Low.
 
     (* Table.Scan *)
     Definition table_scan (root : Z) (cb : Z -> record -> S -> flow * S) (s : S) : flow * S :=
-      match open_table _ openp root with
+      match open_table _ op root with
       | Err e => (Fail e, s)
       | Ok p =>
-        titer _ openp S
+        titer _ op S
               (fun rowid pl s => match load pl with
                                  | Ok rec => cb rowid rec s
                                  | Err e => (Fail e, s) end)
@@ -35,17 +35,17 @@ Section Low.
 
     (* Index.Scan *)
     Definition index_scan (root : Z) (cb : record -> S -> flow * S) (s : S) : flow * S :=
-      match open_index _ openp root with
+      match open_index _ op root with
       | Err e => (Fail e, s)
-      | Ok p => iiter _ _ openp load S cb max_recursion p s
+      | Ok p => iiter _ _ op load S cb max_recursion p s
       end.
 
     (* Index.ScanMin *)
     Definition index_scan_min (root : Z) (from : key) (cb : record -> S -> flow * S) (s : S)
       : flow * S :=
-      match open_index _ openp root with
+      match open_index _ op root with
       | Err e => (Fail e, s)
-      | Ok p => iiter_min _ _ openp load S cb (search from) max_recursion p s
+      | Ok p => iiter_min _ _ op load S cb (search from) max_recursion p s
       end.
 
     (* Index.ScanEq *)
@@ -61,10 +61,10 @@ Section Low.
 
   (* Table.Rowid: Ok None = not found *)
   Definition table_rowid (root : Z) (rowid : Z) : res (option record) :=
-    match open_table _ openp root with
+    match open_table _ op root with
     | Err e => Err e
     | Ok p =>
-      match titer_min _ openp (option cell_payload)
+      match titer_min _ op (option cell_payload)
                       (fun k pl s => (Stop, if k =? rowid then Some pl else s))
                       max_recursion p rowid None with
       | (Fail e, _) => Err e
